@@ -711,7 +711,7 @@ class Interp(object):
         if hasattr(obj, 'pv_setattr'):
             obj.pv_setattr(self, fr, name, val)
             return
-        if isinstance(obj, FuncV) and name in ('__doc__', '__name__'):
+        if isinstance(obj, FuncV) and name in ('__doc__', '__name__', '__qualname__'):
             return          # documentation metadata of a function object: dropped like docstrings
         raise Unsupported('setattr %s on %r' % (name, obj))
 
